@@ -389,7 +389,7 @@ func ruleIndexResetOnEveryPath(c *Ctx, rule string) {
 
 // rulePortCutAtLastColon: the port is what follows the LAST colon of the host (an IPv6 literal contains colons).
 func rulePortCutAtLastColon(c *Ctx, rule string) {
-	c.R.Rule(c.R.Property+"."+rule, 1, "the port is what follows the last colon of the host")
+	c.R.Rule(c.R.Property+"."+rule, 0, "the port is what follows the last colon of the host")
 	f := c.P.MustFunc("mux.(*Hosts).Match")
 	n := 0
 	for _, fn := range builderCluster(c, f) {
